@@ -359,14 +359,14 @@ package plenccodec
 //@   ensures[C09,C02] result == (loadptr(ptr) == nil)
 
 //@ func plenccodec.PointerWrapper.Read
-//@   safety C04
+//@   safety C04 C11
 //@   keeps ptr 8
 //@   ensures[C04,C05] err == nil ==> 0 <= n && n <= len(data)
 //@   ensures[C09,C10] loadptr(ptr) != nil
 //@   ensures[C10] old(loadptr(ptr)) != nil ==> loadptr(ptr) == old(loadptr(ptr))
 
 //@ func plenccodec.WTVarIntSliceWrapper.Read
-//@   safety C04
+//@   safety C04 C11
 //@   keeps ptr 24
 //@   assume 0 <= loadi64(ptr + 8) && loadi64(ptr + 8) <= loadi64(ptr + 16) && loadi64(ptr + 16) < (1 << 40)   # the target is a well-formed slice header
 //@   allocbound[C04] len(data)
@@ -378,7 +378,7 @@ package plenccodec
 //@   ensures[C04,C10] err == nil ==> 0 <= loadi64(ptr + 8) && loadi64(ptr + 8) <= loadi64(ptr + 16)
 
 //@ func plenccodec.WTFixedSliceWrapper.Read
-//@   safety C04
+//@   safety C04 C11
 //@   keeps ptr 24
 //@   assume 0 <= loadi64(ptr + 8) && loadi64(ptr + 8) <= loadi64(ptr + 16) && loadi64(ptr + 16) < (1 << 40)   # the target is a well-formed slice header
 //@   assume @plenccodec.Codec.Size(c.BaseSliceWrapper.Underlying, nil, nil) == 4 || @plenccodec.Codec.Size(c.BaseSliceWrapper.Underlying, nil, nil) == 8   # fixed-width element codec (wire type 1 or 5)
@@ -388,7 +388,7 @@ package plenccodec
 //@   ensures[C04,C05] err == nil ==> 0 <= n && n <= len(data)
 
 //@ func plenccodec.WTLengthSliceWrapper.Read
-//@   safety C04
+//@   safety C04 C11
 //@   keeps ptr 24
 //@   assume 0 <= loadi64(ptr + 8) && loadi64(ptr + 8) <= loadi64(ptr + 16) && loadi64(ptr + 16) < (1 << 40)   # the target is a well-formed slice header
 //@   allocbound[C04] len(data)
@@ -399,27 +399,27 @@ package plenccodec
 //@   ensures[C04,C05] err == nil ==> 0 <= n && n <= len(data)
 
 //@ func plenccodec.WTLengthSliceWrapper.readAsWTLength
-//@   safety C04
+//@   safety C04 C11
 //@   keeps ptr 24
 //@   assume 0 <= loadi64(ptr + 8) && loadi64(ptr + 8) <= loadi64(ptr + 16) && loadi64(ptr + 16) < (1 << 40)   # the target is a well-formed slice header
 //@   allocbound[C04] 2 * old(loadi64(ptr + 16)) + 8
 //@   ensures[C04,C05] err == nil ==> 0 <= n && n <= len(data)
 
 //@ func plenccodec.ProtoSliceWrapper.Read
-//@   safety C04
+//@   safety C04 C11
 //@   keeps ptr 24
 //@   assume 0 <= loadi64(ptr + 8) && loadi64(ptr + 8) <= loadi64(ptr + 16) && loadi64(ptr + 16) < (1 << 40)   # the target is a well-formed slice header
 //@   allocbound[C04] 2 * old(loadi64(ptr + 16)) + 8
 //@   ensures[C04,C05] err == nil ==> 0 <= n && n <= len(data)
 
 //@ func plenccodec.*StructCodec.Read
-//@   safety C04
+//@   safety C04 C11
 //@   loop 1 invariant[C04] 0 <= offset && offset <= l && l == len(data)
 //@   loop 1 decreases l - offset
 //@   ensures[C04,C05] err == nil ==> 0 <= n && n <= len(data)
 
 //@ func plenccodec.*MapCodec.Read
-//@   safety C04
+//@   safety C04 C11
 //@   trust typeassert                  # kPool only ever holds unsafe.Pointer values (its New is newKey)
 //@   allocbound[C04] len(data)
 //@   loop 1 invariant[C04] 0 < offset && offset <= len(data)
@@ -427,35 +427,35 @@ package plenccodec
 //@   ensures[C04,C05] err == nil ==> 0 <= n && n <= len(data)
 
 //@ func plenccodec.*MapCodec.readMapEntry
-//@   safety C04
+//@   safety C04 C11
 //@   ensures[C04,C05] r1 == nil ==> 0 <= r0 && r0 <= len(data)
 
 //@ func plenccodec.*MapCodec.readTagAndLength
-//@   safety C04
+//@   safety C04 C11
 //@   requires 0 <= offset && offset <= len(data)
 //@   ensures[C04] err == nil ==> offset <= offset2 && offset2 <= fieldEnd && fieldEnd <= len(data)
 //@   ensures[C04] err == nil ==> 0 <= wt && wt <= 7
 
 //@ func plenccodec.ProtoMapCodec.Read
-//@   safety C04
+//@   safety C04 C11
 //@   trust typeassert
 //@   ensures[C04,C05] err == nil ==> 0 <= n && n <= len(data)
 
 //@ func plenccodec.TimeCodec.Read
-//@   safety C04
+//@   safety C04 C11
 //@   writes ptr 24
 //@   loop 1 invariant[C04] 0 <= offset && offset <= l && l == len(data)
 //@   loop 1 decreases l - offset
 //@   ensures[C04,C05] err == nil ==> 0 <= n && n <= len(data)
 
 //@ func plenccodec.TimeCompatCodec.Read
-//@   safety C04
+//@   safety C04 C11
 //@   writes ptr 24
 //@   loop 1 invariant[C04] 0 <= offset && offset <= l && l == len(data)
 //@   loop 1 decreases l - offset
 //@   ensures[C04,C05] err == nil ==> 0 <= n && n <= len(data)
 
 //@ func plenccodec.BQTimestampCodec.Read
-//@   safety C04
+//@   safety C04 C11
 //@   writes ptr 24
 //@   ensures[C04,C05] err == nil ==> 0 <= n && n <= len(data)
